@@ -2750,8 +2750,8 @@ class ReportDTCExtDataRecordByDTCNumberResponse(
         self.dtc_ext_data_records = dtc_ext_data_records
 
     def dtc_and_status_record_bytes(self) -> bytes:
-        return to_bytes(self.dtc_and_status_record[0], 1) + to_bytes(
-            self.dtc_and_status_record[1], 3
+        return to_bytes(self.dtc_and_status_record[0], 3) + to_bytes(
+            self.dtc_and_status_record[1], 1
         )
 
     @property
@@ -2769,6 +2769,10 @@ class ReportDTCExtDataRecordByDTCNumberResponse(
     @classmethod
     def _from_pdu(cls, pdu: bytes) -> Self:
         dtc_and_status_record = pdu[2:6]
+
+        if len(pdu) == 6:
+            return cls(dtc_and_status_record, {})
+
         dtc_ext_data_record_number = pdu[6]
         dtc_ext_data_record = pdu[7:]
         return cls(dtc_and_status_record, {dtc_ext_data_record_number: dtc_ext_data_record})
